@@ -14,7 +14,8 @@
 (***************************************************************************)
 EXTENDS FileFormat, FiniteSets
 
-CONSTANTS Products     \* set of product descriptions [imgs : Seq([pol, scan]), nmap : 0..1]
+CONSTANTS NoFaults,    \* BOOLEAN: explore only the fault-free pipeline (tree assembly, C13)
+          Products     \* set of product descriptions [imgs : Seq([pol, scan]), nmap : 0..1]
                        \* scan = "" for stripmap products, else e.g. "F3"
 
 VARIABLES prod,        \* the product being opened
@@ -47,7 +48,7 @@ MetaGroups(p) == {"dataset_summary", "platform_position", "attitude", "radiometr
                   "transformations"} \cup (IF p.nmap = 1 THEN {"map_projection"} ELSE {})
 
 Init == /\ prod \in Products
-        /\ fault \in Faults(prod)
+        /\ fault \in (IF NoFaults THEN {NoFault} ELSE Faults(prod))
         /\ pc = "summary" /\ idx = 1 /\ touched = {} /\ groups = << >> /\ meta = {} /\ outcome = "pending"
 
 Bad(f)  == fault.file = f /\ fault.kind # "none"
@@ -88,6 +89,8 @@ NoTrailerAccess  == "trl" \notin touched
 Terminates       == <>(pc = "done")
 \* ---- C13
 DistinctNames(p) == \A i, j \in 1..K(p) : i # j => GroupName(p.imgs[i]) # GroupName(p.imgs[j])
+\* the three children of the root, in this order; imagery children in summary order
+RootChildren     == <<"summary", "metadata", "imagery">>
 ExactlyKGroups   == outcome = "tree" => /\ Len(groups) = K(prod)
                                         /\ \A i \in 1..K(prod) : groups[i].name = GroupName(prod.imgs[i])
 GroupOwnsItsFile == outcome = "tree" => \A i \in 1..K(prod) : groups[i].file = ImgFile(i)
